@@ -341,7 +341,14 @@ def metadata_rules(ctx, rep, R):
         # popped directories are applied; the final drain is reversed (children before parents)
         okp = all(any(C.can_reach(RM_, p_, c_) for c_ in sm_calls) for p_ in pops)
         rep.check(R, "restore_metadata/popped-dirs-applied", okp, where=RM_.loc(), what="directories popped from the stack get set_metadata")
-        rep.check(R, "restore_metadata/final-drain-reversed", len(revs) == 1, where=RM_.loc(), what="the remaining stack is drained in reverse (innermost directory first)")
+        # innermost first: `into_iter().rev()` over the stack, or a drain loop of its own (outside the per-node loop) that pops
+        # (LIFO) and applies what it popped
+        byh_ = {}
+        for (l_, h_) in C.back_edges(RM_):
+            byh_.setdefault(h_, set()).update(C.loop_blocks(RM_, h_, l_))
+        main_loops = [bl for bl in byh_.values() if sws and sws[0] in bl]
+        drain_pop = any(p_ not in set().union(*main_loops) and any(p_ in bl and any(c_ in bl for c_ in sm_calls) for bl in byh_.values()) for p_ in pops) if main_loops else False
+        rep.check(R, "restore_metadata/final-drain-reversed", len(revs) == 1 or drain_pop, where=RM_.loc(), what="the remaining stack is drained in reverse (innermost directory first)")
 
 
 def _reach_under(body, cut_blocks, forced):
